@@ -48,6 +48,17 @@ def gen_obj_schema(rng, depth, bad_default_p=0.08):
     o.set("properties", props)
     if rng.random() < 0.5:
         o.set("required", rng.sample(names + ["zz"], rng.randint(0, 2)))
+    if rng.random() < 0.2:
+        # a declared default is validated as it is declared, not as ApplyDefaults would complete it: keywords that count properties
+        kw = rng.choice(["minProperties", "maxProperties", "dependentRequired", "anyOfRequired"])
+        if kw == "minProperties":
+            o.set(kw, Num(str(rng.randint(0, 2))))
+        elif kw == "maxProperties":
+            o.set(kw, Num(str(rng.randint(0, 2))))
+        elif kw == "dependentRequired":
+            o.set(kw, Obj([(rng.choice(names), [rng.choice(gs.NAMES)])]))
+        else:
+            o.set("anyOf", [Obj([("required", [rng.choice(names)])]), Obj([("maxProperties", Num("0"))])])
     return o
 
 
